@@ -114,11 +114,12 @@ def run_case(kind, p):
             # a two-frame stack (the same content moved by a few pixels first): the batch helpers reuse their buffers
             stack = np.stack([np.roll(vals, (3, 5), axis=(0, 1)), vals])
             try:
-                ref = fn(pattern, stack.astype(np.float64), peaks)
+                kw_ = {"upsample": p["upsample"]} if p.get("upsample") else {}
+                ref = fn(pattern, stack.astype(np.float64), peaks, **kw_)
                 if p.get("prior_narrow"):
                     # call history: a stack of 8-bit / 16-bit frames of the same shape, same peaks, processed right before
-                    fn(pattern, (np.abs(stack) % 251).astype(p["prior_narrow"]), peaks)
-                got = fn(pattern, stack.astype(p["dtype"]), peaks)
+                    fn(pattern, (np.abs(stack) % 251).astype(p["prior_narrow"]), peaks, **kw_)
+                got = fn(pattern, stack.astype(p["dtype"]), peaks, **kw_)
             except Exception as e:
                 msgs.append(f"{nm} with {p['dtype']} frames raised {type(e).__name__}: {e}")
                 continue
@@ -153,6 +154,8 @@ def run_case(kind, p):
                         break
                 else:
                     tol = 2e-4 * np.maximum(1.0, np.abs(b)) if onm != "refineds" else 2e-3
+                    if onm == "refineds" and p.get("upsample"):
+                        tol = 1.0 / float(20 if p["upsample"] is True else p["upsample"]) + 2e-3    # one step of the upsampled grid
                     if onm == "elevations":
                         # (height - value) / distance with distance >= 1.5: one float32 ulp of the height in each of the two
                         # terms is float32 rounding, whatever the size of the slope itself
@@ -198,7 +201,7 @@ def search(ctx, boost=1, focus=()):
             npk = 2 ** 19 // ((2 * c) ** 2 * 8) + int(rng.integers(2, 8))
             peaks = np.stack([rng.integers(c, shape[0] - c, npk), rng.integers(c, shape[1] - c, npk)], axis=1)
             p = {"seed": int(rng.integers(1 << 30)), "dtype": name, "spread": "ramp", "pattern": pat, "shape": shape,
-                 "peaks": peaks.tolist()}
+                 "peaks": peaks.tolist(), "upsample": [None, 5, None, 20][(rep + DTYPES.index(name)) % 4] if name != "uint16" else 5}
             ctx.oracle_case("dtype", p, run_case("dtype", p), nontrivial=True)
             ctx.count("oracle_many_peaks")
 
